@@ -161,21 +161,25 @@ def mergeKeys : List String → List String → List String
 def mergeTagKeys (rows : List Row) : List String :=
   rows.foldl (fun acc r => mergeKeys acc (r.tags.map (·.1))) []
 
+section
+variable {ρ κ : Type} [LT κ] [DecidableLT κ] [DecidableEq κ]
+
 /-- insertion into a list sorted by sort key, after the elements with an equal key (stable) -/
-def insertBy (k : Row → String) (r : Row) : List Row → List Row
+def insertBy (k : ρ → κ) (r : ρ) : List ρ → List ρ
   | [] => [r]
   | x :: xs => if k r < k x then r :: x :: xs else x :: insertBy k r xs
 
-def sortBy (k : Row → String) (rows : List Row) : List Row :=
+def sortBy (k : ρ → κ) (rows : List ρ) : List ρ :=
   rows.foldl (fun acc r => insertBy k r acc) []
 
-/-- runs of equal sort key -/
-def runs (k : Row → String) : List Row → List (List Row)
+/-- runs of equal sort key (`groupByNextGroup`: `bytes.Equal(rowKey, seriesRows[j].SortKey)`) -/
+def runs (k : ρ → κ) : List ρ → List (List ρ)
   | [] => []
   | r :: rs =>
     match runs k rs with
-    | (x :: g) :: gs => if k r == k x then (r :: x :: g) :: gs else [r] :: (x :: g) :: gs
+    | (x :: g) :: gs => if k r = k x then (r :: x :: g) :: gs else [r] :: (x :: g) :: gs
     | _ => [[r]]
+end
 
 structure GroupReq where
   by_ : Bool                 -- GroupBy / GroupNone
